@@ -120,6 +120,10 @@ class Cookie:
         max_age: int = -1,
         samesite: Literal["strict", "lax", "none"] = "lax",
     ):
+        for attribute in (domain, path, samesite):
+            # name and value get quoted, the attributes are written as they are
+            if attribute and re.search(r"[\x00-\x1f\x7f]", attribute):
+                raise ValueError("Cookie attributes cannot contain control characters")
         self.name = name
         self.value = value
         self.expires = expires
